@@ -5,7 +5,7 @@
    per work item of the step machine (Render!RStep), with the invariants evaluated in every
    intermediate state.  Terminal states apply the property predicates of Props to the model's
    result and emit the behaviour for replay on the real library. *)
-EXTENDS Render, Props, Json, TLCExt
+EXTENDS Render, Props, KnownFindings, Json, TLCExt
 CONSTANTS MaxTop, Widths, Scope, CfgNames, Emit
 
 NoA == [x \in {} |-> 0]
@@ -45,7 +45,33 @@ Blocks0 == { E("p", <<x>>) : x \in {tTwo, tLong} }
                     EA("p", [id |-> "i2"], <<"id">>, <<tLong, tSp, tAB>>),
                     EA("ol", [start |-> [s |-> "-1", c |-> Str(<<45, 49>>)]], <<"start">>, <<E("li", <<tAB>>), E("li", <<tAB>>), E("li", <<tAB>>)>>),
                     E("h1", <<EA("a", [href |-> Href], <<"href">>, <<tAB>>)>>) })
-Flow == Inl1 \cup Blocks0
+(* ---- regular tables (Scope "tq" / "tt"): every cell is filled with copies of its own letter ---- *)
+TScope == Scope \in {"tq", "tt"}
+NCols == IF Scope = "tq" THEN {2} ELSE {2, 3}
+Classes == IF Scope = "tq" THEN {"e", "s", "m"} ELSE {"e", "s", "m", "w"}
+Tilings(n) == IF n = 2 THEN {<<1, 1>>, <<2>>} ELSE {<<1, 1, 1>>, <<2, 1>>, <<1, 2>>, <<3>>}
+Letter(r, c) == 96 + (r - 1) * 3 + c                     \* row r, first grid column c -> a..f
+CellText(r, c, cl) ==
+  LET L == <<Letter(r, c), 1>> IN
+  CASE cl = "e" -> <<>>
+    [] cl = "s" -> <<L, L>>
+    [] cl = "m" -> <<L, L, <<32, 1>>, L>>
+    [] cl = "w" -> <<<<19968, 2>>, L>>
+    [] OTHER -> <<L, L, L, L, L, L, L>>
+\* a row = [til, cls]: tiling and one class per cell
+RowSpecs == UNION { { [til |-> t, cls |-> cs] : cs \in [1..Len(t) -> Classes] } : t \in UNION {Tilings(n) : n \in NCols} }
+RowNode(r, rs) ==
+  LET starts == [j \in 1..Len(rs.til) |-> SumSeq(SubSeq(rs.til, 1, j - 1)) + 1] IN
+  E("tr", [j \in 1..Len(rs.til) |->
+             LET txt == CellText(r, starts[j], rs.cls[j])
+                 kids == IF txt = <<>> THEN <<>> ELSE <<T(txt)>> IN
+             IF rs.til[j] = 1 THEN E("td", kids)
+             ELSE EA("td", [colspan |-> [s |-> ToString(rs.til[j]), c |-> Str(<<48 + rs.til[j]>>)]], <<"colspan">>, kids)])
+RowCells(r, rs) ==
+  LET starts == [j \in 1..Len(rs.til) |-> SumSeq(SubSeq(rs.til, 1, j - 1)) + 1] IN
+  [j \in 1..Len(rs.til) |-> [r |-> r, c0 |-> starts[j], c1 |-> starts[j] + rs.til[j] - 1, code |-> Letter(r, starts[j]),
+                              n |-> Len(SelectSeq(CellText(r, starts[j], rs.cls[j]), LAMBDA x : x[1] = Letter(r, starts[j])))]]
+Flow == IF TScope THEN {} ELSE Inl1 \cup Blocks0
 
 CfgOfName(nm) ==
   CASE nm = "plain" -> [deco |-> "plain", ops |-> <<>>]
@@ -57,26 +83,32 @@ CfgOfName(nm) ==
     [] nm = "nofoot" -> [deco |-> "plain", ops |-> << <<"footnotes", FALSE>>, <<"strike", FALSE>> >>]
     [] OTHER -> [deco |-> "plain_nd", ops |-> <<>>]
 
-VARIABLES doc, phase, w, cfgn, st, result
-vars == <<doc, phase, w, cfgn, st, result>>
+VARIABLES doc, phase, w, cfgn, st, result, rowspecs
+vars == <<doc, phase, w, cfgn, st, result, rowspecs>>
 NoSt == [stk |-> <<>>, links |-> <<>>, todo |-> <<>>, acc |-> <<>>, err |-> ""]
 NoRes == [k |-> "none", lines |-> <<>>, why |-> ""]
 cfg == CfgOfName(cfgn)
 cf == Cf(cfg)
 
-Init == doc = <<>> /\ phase = "build" /\ w = 0 /\ cfgn = "plain" /\ st = NoSt /\ result = NoRes
+Init == doc = <<>> /\ phase = "build" /\ w = 0 /\ cfgn = "plain" /\ st = NoSt /\ result = NoRes /\ rowspecs = <<>>
 Add(n) == /\ phase = "build" /\ Len(doc) < MaxTop
-          /\ doc' = Append(doc, n) /\ UNCHANGED <<phase, w, cfgn, st, result>>
+          /\ doc' = Append(doc, n) /\ UNCHANGED <<phase, w, cfgn, st, result, rowspecs>>
+\* table scopes: rows are added one at a time (all rows tile the same number of columns)
+AddRow(rs) == /\ TScope /\ phase = "build" /\ Len(rowspecs) < MaxTop
+              /\ IF rowspecs = <<>> THEN TRUE ELSE SumSeq(rs.til) = SumSeq(rowspecs[1].til)
+              /\ rowspecs' = Append(rowspecs, rs)
+              /\ doc' = << E("table", << E("tbody", [r \in 1..Len(rowspecs') |-> RowNode(r, rowspecs'[r])]) >>) >>
+              /\ UNCHANGED <<phase, w, cfgn, st, result>>
 Start(width, nm) ==
   /\ phase = "build" /\ doc # <<>>
   /\ w' = width /\ cfgn' = nm /\ phase' = "render"
   /\ st' = Init0(RenderTreeOf(doc, Cf(CfgOfName(nm))), width, Cf(CfgOfName(nm)))
-  /\ UNCHANGED <<doc, result>>
+  /\ UNCHANGED <<doc, result, rowspecs>>
 Step == /\ phase = "render" /\ st.todo # <<>> /\ st.err = ""
-        /\ st' = RStep(st, cf) /\ UNCHANGED <<doc, phase, w, cfgn, result>>
+        /\ st' = RStep(st, cf) /\ UNCHANGED <<doc, phase, w, cfgn, result, rowspecs>>
 Fin == /\ phase = "render" /\ (st.todo = <<>> \/ st.err # "")
-       /\ result' = Finalise(st, cf) /\ phase' = "done" /\ UNCHANGED <<doc, w, cfgn, st>>
-Next == (\E n \in Flow : Add(n)) \/ (\E width \in Widths, nm \in CfgNames : Start(width, nm)) \/ Step \/ Fin
+       /\ result' = Finalise(st, cf) /\ phase' = "done" /\ UNCHANGED <<doc, w, cfgn, st, rowspecs>>
+Next == (\E n \in Flow : Add(n)) \/ (\E rs \in RowSpecs : AddRow(rs)) \/ (\E width \in Widths, nm \in CfgNames : Start(width, nm)) \/ Step \/ Fin
 Spec == Init /\ [][Next]_vars
 
 (* ---------------- invariants on every intermediate state ---------------- *)
@@ -116,12 +148,24 @@ Inv_C01 == (phase = "render" => st.err \in {"", "narrow"}) /\ (phase = "done" =>
 Inv_C11 == (phase = "done" /\ cf.overflow /\ w >= 1) => result.k = "ok"
 
 (* ---------------- property predicates on the model's result ---------------- *)
-Case == [id |-> "mc", doms |-> <<doc>>, meta |-> [x \in {} |-> 0],
+Meta == IF TScope THEN [cells |-> Concat([r \in 1..Len(rowspecs) |-> RowCells(r, rowspecs[r])])] ELSE [x \in {} |-> 0]
+Case == [id |-> "mc", doms |-> <<doc>>, meta |-> Meta,
          runs |-> << [d |-> 1, w |-> w, cfg |-> cfg, route |-> IF cfg.deco = "rich" THEN "lines" ELSE "string",
                       res |-> [k |-> result.k, lines |-> result.lines,
                                sw |-> [i \in 1..Len(result.lines) |-> SumW(result.lines[i])]]] >>]
 Inv_P_C02 == phase = "done" => P_C02(Case)
 Inv_P_C03 == phase = "done" => P_C03(Case)
+Inv_P_C05 == (phase = "done" /\ TScope /\ cf.borders /\ cfg.deco = "plain") => (P_C05(Case) \/ KF_Table(Case) # "")
+Inv_P_C06 == (phase = "done" /\ TScope /\ cf.borders /\ cfg.deco = "plain") => (P_C06(Case) \/ KF_Table(Case) # "")
+\* C06: the column allocation never exceeds the width, never starves a column that holds text, and the
+\* shrink loop never gets stuck (evaluated when the table node is entered)
+Inv_Alloc == (phase = "render" /\ st.err = "" /\ st.todo # <<>> /\ Head(st.todo).e = "node" /\ Head(st.todo).n.kind = "Table") =>
+               LET t == Head(st.todo).n
+                   lay == TableLayout(t, Top(st).width, cf)
+                   es == TableColSizes(t, cf) IN
+               /\ ~lay.stuck
+               /\ ~lay.vert => /\ lay.tw <= Top(st).width
+                                /\ \A i \in 1..t.ncols : es[i].size > 0 => lay.cw[i] > 0
 Inv_P_C08 == phase = "done" => P_C08(Case)
 Inv_P_C09 == (phase = "done" /\ cfg.deco = "rich") => P_C09(Case)
 Inv_P_C14 == (phase = "done" /\ cfg.deco = "rich") => P_C14(Case)
@@ -129,7 +173,7 @@ Inv_P_C14 == (phase = "done" /\ cfg.deco = "rich") => P_C14(Case)
 (* ---------------- behaviour emission ---------------- *)
 Beh == [id |-> "mcblock", body |-> doc,
         runs |-> << [w |-> w, cfg |-> cfg, route |-> IF cfg.deco = "rich" THEN "lines" ELSE "string", b |-> 1] >>,
-        meta |-> [pred |-> << [k |-> result.k,
+        meta |-> Meta @@ [pred |-> << [k |-> result.k,
                                lines |-> [i \in 1..Len(result.lines) |-> Plain(NoFrags(result.lines[i]))]] >>,
                   src |-> "MC_Block"]]
 Inv_Emit == (Emit /\ phase = "done") => PrintT(<<"BEH", ToJson(Beh)>>)
